@@ -369,7 +369,7 @@ def part_cache(ctx):
                       msgs[0] if msgs else msg)
     # correspondence inside Coq (histories that raised are reported by the oracle already)
     idxs = [i for i, a in enumerate(anns) if not any('err' in o for o in a)]
-    res = ctx.coq_eval('cache', HEADER, [cache_term(anns[i]) for i in idxs])
+    res = ctx.coq_eval('cache', HEADER, [cache_term(anns[i]) for i in idxs], shard=12 if ctx.quick else 60)
     dis = []
     flagged = 0
     for i, r in zip(idxs, res):
@@ -635,7 +635,7 @@ def part_wrappers(ctx):
         terms.append('%s %s %s (%s)' % ('check_calls_IC' if binary else 'check_calls_ICm', coq_arr1(T), coq_arr1(g), impl))
         descr.append(('getInterfacialComposition(%s)' % ('binary' if binary else 'multicomponent'), {'T': T, 'g': g}))
         ctx.count({'wrapic': [binary, T, g]}, True)
-    res = ctx.coq_eval('wrap', HEADER, terms)
+    res = ctx.coq_eval('wrap', HEADER, terms, shard=30 if ctx.quick else 150)
     bad = [(d, t) for d, t, r in zip(descr, terms, res) if r is not True]
     ctx.notes['wrapper_cases'] = len(terms)
     ctx.sample({'wrapper_case': {'function': descr[-1][0], 'arguments': descr[-1][1]}})
@@ -859,7 +859,7 @@ def part_singlephase(ctx):
             ctx.violation(clause, {'site': SITE_SP, 'cls': cls},
                           {'kind': 'input', 'part': 'singlephase', 'input': c, 'observed': msg,
                            'oracle': 'every diffusivity a node receives is traced to the back-end call that produced it (harness/c09.py: run_singlephase)'}, msg)
-    res = ctx.coq_eval('nodes', HEADER, terms)
+    res = ctx.coq_eval('nodes', HEADER, terms, shard=8 if ctx.quick else 40)
     bad = [(c, r) for c, r in zip(cases, res) if r[0] is not None]
     ctx.notes['singlephase_runs'] = len(cases)
     ctx.sample({'singlephase_run': cases[-1]})
@@ -878,12 +878,12 @@ def part_singlephase(ctx):
 # ==========================================================================================
 # D. SAMPLING of the real pycalphad-backed objects (testing, not proof)
 RTOL = 1e-8          # fresh vs warmed results agree to ~1e-9 (solver tolerance); stale caches show at 1e-5 or more
-RTOL_DIFF = 1e-7     # diffusivities amplify the solver's convergence noise: up to 9e-9 observed over 2000 queries
+RTOL_DIFF = 1e-7     # diffusivities (and curvature factors / growth rates built on them) amplify the solver's convergence noise: up to 1.2e-8 observed
 RTOL_CURVDF = 1e-5   # 'curvature' driving force = (x - xM) d2G/dx2 (xP - xM): second derivatives, up to 9e-7 observed between cold and warm starts
 def rtol_of(q, method=None):
     if q['q'] == 'DF' and method == 'curvature':
         return RTOL_CURVDF
-    return RTOL_DIFF if q['q'] in ('ID', 'TD') else RTOL
+    return RTOL_DIFF if q['q'] in ('ID', 'TD', 'CURV', 'GROW', 'IMP') else RTOL      # all of these contain mobilities
 SYSTEMS = {
     'ALZR': {'binary': True, 'prec': ['AL3ZR'], 'matrix': ['FCC_A1'], 'methods': ['tangent', 'approximate', 'sampling', 'curvature'],
              'x': [(0.002, 0.02)], 'T': (500.0, 850.0), 'queries': ['DF', 'DF', 'IC', 'ID', 'TD'], 'batch': ['IC', 'IC', 'DF', 'ID', 'TD']},
@@ -1484,7 +1484,7 @@ def part_scripted(ctx):
     n = 40 if ctx.quick else 400
     cases = corpus_cases('scripted') + [gen_scripted_history(ctx.rng, ctx.quick) for _ in range(n)]
     runs = [run_scripted_impl(c) for c in cases]
-    res = ctx.coq_eval('scripted', HEADER, [scripted_term(c) for c in cases])
+    res = ctx.coq_eval('scripted', HEADER, [scripted_term(c) for c in cases], shard=4 if ctx.quick else 16)
     dis = []
     ncalls = 0
     for c, (out, judge, calls), rows in zip(cases, runs, res):
@@ -1514,6 +1514,314 @@ def part_scripted(ctx):
 
 
 # ==========================================================================================
+# ==========================================================================================
+# F. no call modifies the arrays passed to it: every public query, every array-capable argument, every aliasing layout
+LAYOUTS_1D = ['plain', '0d', 'slice', 'negstride', 'column', 'f32', 'i64']
+LAYOUTS_2D = ['plain', 'slice', 'transposed', 'fortran', 'negstride', 'colslice']
+
+
+def build_arg(spec):
+    """spec = {'values': nested list, 'layout': ...} -> (array to pass, base array whose memory it shares).
+    Every layout except the dtype ones is a float64 VIEW that np.atleast_1d / atleast_2d / .T pass on without copying."""
+    v = spec['values']
+    lay = spec['layout']
+    a = np.array(v, dtype=np.float64)
+    if lay == 'f32':
+        arr = np.array(v, dtype=np.float32); return arr, arr
+    if lay == 'i64':
+        arr = np.array(v, dtype=np.int64); return arr, arr
+    if lay == '0d' or a.ndim == 0:
+        arr = np.array(a.reshape(-1)[0] if a.size == 1 else a); return arr, arr
+    if lay == 'plain':
+        return a, a
+    if a.ndim == 1:
+        n = len(a)
+        if lay == 'slice':
+            base = np.full(2 * n + 1, 0.5); view = base[1::2]
+        elif lay == 'negstride':
+            base = np.full(n, 0.5); view = base[::-1]
+        elif lay == 'column':
+            base = np.full((n, 3), 0.5); view = base[:, 1]
+        else:
+            return a, a
+        view[...] = a
+        return view, base
+    r, c = a.shape
+    if lay == 'slice':
+        base = np.full((r + 2, c), 0.5); view = base[1:-1]
+    elif lay == 'transposed':
+        base = np.full((c, r), 0.5); view = base.T
+    elif lay == 'fortran':
+        base = np.asfortranarray(np.full((r, c), 0.5)); view = base
+    elif lay == 'negstride':
+        base = np.full((r, c), 0.5); view = base[::-1]
+    elif lay == 'colslice':
+        base = np.full((r, 2 * c), 0.5); view = base[:, ::2]
+    else:
+        return a, a
+    view[...] = a
+    return view, base
+
+
+def bits(a):
+    return (str(a.dtype), a.shape, a.tobytes())
+
+
+def describe_change(name, before, arr):
+    b = np.frombuffer(before[2], dtype=before[0]).reshape(before[1]) if before[1] != () else np.frombuffer(before[2], dtype=before[0])
+    a = np.asarray(arr)
+    if b.shape != a.shape:
+        return '%s changed shape' % name
+    idx = [i for i in np.ndindex(a.shape) if a[i].tobytes() != b[i].tobytes()] if a.shape != () else [()]
+    return '%s%r: %r -> %r' % (name, tuple(idx[0]), (b[idx[0]] if a.shape != () else b.reshape(-1)[0]).item(), (a[idx[0]] if a.shape != () else a.reshape(-1)[0]).item())
+
+
+MUT_QUERIES = {
+    # query -> (argument names in call order, which are arrays)
+    '_process_xT_arrays': ['x', 'T'], '_process_TG_arrays': ['T', 'g'], '_process_x': ['x'],
+    'getDrivingForce': ['x', 'T'], 'getInterdiffusivity': ['x', 'T'], 'getTracerDiffusivity': ['x', 'T'],
+    'getInterfacialComposition': ['T', 'g'], 'getInterfacialComposition_multi': ['x', 'T', 'g'],
+    'curvatureFactor': ['x', 'T'], 'impingementFactor': ['x', 'T'], 'getGrowthAndInterfacialComposition': ['x', 'T', 'R', 'g'],
+    'computeMobility': ['x', 'T'], 'computeHomogenizationFunction': ['x', 'T'],
+    'HashTable.add_retrieve': ['x', 'T'],
+}
+
+
+def mut_call(system, query, specs, recorders):
+    """perform one call; returns list of (argument, description of the change); exceptions of the call are not the subject here
+    (an argument must be left alone also by a call that fails)"""
+    from kawin.thermo.utils import _process_xT_arrays, _process_TG_arrays, _process_x
+    built = {n: build_arg(sp) for n, sp in specs.items()}
+    before = {n: (bits(arr), bits(base)) for n, (arr, base) in built.items()}
+    A = {n: arr for n, (arr, base) in built.items()}
+    binary = SYSTEMS[system]['binary'] if system in SYSTEMS else True
+    err = None
+    try:
+        with quiet():
+            if query == '_process_xT_arrays':
+                _process_xT_arrays(A['x'], A['T'], binary)
+            elif query == '_process_TG_arrays':
+                _process_TG_arrays(A['T'], A['g'])
+            elif query == '_process_x':
+                _process_x(A['x'], 2 if binary else 3)
+            elif query == 'HashTable.add_retrieve':
+                from kawin.diffusion.DiffusionParameters import HashTable
+                h = HashTable()
+                h.addToHashTable(A['x'], float(np.ravel(A['T'])[0]), 1)
+                h.retrieveFromHashTable(A['x'], float(np.ravel(A['T'])[0]))
+            else:
+                th = mut_object(system, recorders)
+                ph = SYSTEMS[system]['prec'][0] if SYSTEMS[system]['prec'] else None
+                if query in ('getDrivingForce',):
+                    th.getDrivingForce(A['x'], A['T'], precPhase=ph)
+                elif query == 'getInterdiffusivity':
+                    th.getInterdiffusivity(A['x'], A['T'])
+                elif query == 'getTracerDiffusivity':
+                    th.getTracerDiffusivity(A['x'], A['T'])
+                elif query == 'getInterfacialComposition':
+                    th.getInterfacialComposition(A['T'], A['g'], precPhase=ph)
+                elif query == 'getInterfacialComposition_multi':
+                    th.getInterfacialComposition(A['x'], A['T'], A['g'], precPhase=ph)
+                elif query == 'curvatureFactor':
+                    th.curvatureFactor(A['x'], A['T'], precPhase=ph, removeCache=True)
+                elif query == 'impingementFactor':
+                    th.impingementFactor(A['x'], A['T'], precPhase=ph, removeCache=True)
+                elif query == 'getGrowthAndInterfacialComposition':
+                    th.getGrowthAndInterfacialComposition(A['x'], A['T'], 900.0, A['R'], A['g'], precPhase=ph, removeCache=True)
+                elif query == 'computeMobility':
+                    from kawin.diffusion.DiffusionParameters import computeMobility, HashTable
+                    computeMobility(th, A['x'], A['T'], HashTable())
+                elif query == 'computeHomogenizationFunction':
+                    import importlib
+                    HP = importlib.import_module('kawin.diffusion.HomogenizationParameters')
+                    from kawin.diffusion.DiffusionParameters import HashTable
+                    HP.computeHomogenizationFunction(th, A['x'], A['T'], HP.HomogenizationParameters(), HashTable())
+                else:
+                    raise ValueError(query)
+    except Exception as ex:
+        err = '%s: %s' % (type(ex).__name__, str(ex)[:120])
+    changed = []
+    for n, (arr, base) in built.items():
+        if bits(arr) != before[n][0]:
+            changed.append((n, describe_change(n, before[n][0], arr)))
+        elif bits(base) != before[n][1]:
+            changed.append((n, '%s: memory of the array it is a view of was changed' % n))
+    return changed, err
+
+
+_MUT_OBJ = {}
+
+
+def mut_object(system, recorders):
+    """thermodynamics object; with recorders=True the single-point back ends are replaced (no pycalphad evaluation), so that
+    hundreds of layouts can be passed through the public wrappers"""
+    key = (system, recorders)
+    if key in _MUT_OBJ:
+        return _MUT_OBJ[key]
+    th = therm(system, fresh=True)
+    if recorders:
+        n = th.numElements
+        th._drivingForce = lambda xi, Ti, p, rm, l: (1.0, np.ones(max(1, n - 1)))
+        th._interdiffusivitySingle = lambda xi, Ti, removeCache=True, phase=None: np.array(1.0)
+        th._tracerDiffusivitySingle = lambda xi, Ti, removeCache=True, phase=None: np.ones(n)
+        if SYSTEMS[system]['binary']:
+            th._interfacialComposition = lambda T, g, p: (np.squeeze(np.atleast_1d(g) * 0 + 0.5), np.squeeze(np.atleast_1d(g) * 0 + 0.25))
+        else:
+            th._interfacialComposition = lambda x, T, g, p: (np.ones(n), np.ones(n))
+            th._getCompositionSetsEq = lambda *a, **k: None
+    _MUT_OBJ[key] = th
+    return th
+
+
+X_EXTREMES = [0.0, -0.0, 1e-12, 5e-324, 1e-10, 1.0]
+
+
+def gen_mut_case(rng, real):
+    """one call: a query, and for each array-capable argument values (including the extremes the API accepts: exact 0, -0, values
+    below 1e-10, 1, repeated values) and an aliasing layout"""
+    system = str(rng.choice(['ALZR', 'NICRAL'] if not real else ['ALZR', 'NICRAL', 'FECRNI']))
+    S = SYSTEMS[system]
+    binary = S['binary']
+    if binary:
+        qs = ['_process_xT_arrays', '_process_TG_arrays', '_process_x', 'getDrivingForce', 'getInterdiffusivity', 'getTracerDiffusivity',
+              'getInterfacialComposition', 'computeMobility', 'HashTable.add_retrieve']
+    elif system == 'NICRAL':
+        qs = ['_process_xT_arrays', '_process_x', 'getDrivingForce', 'getInterdiffusivity', 'getTracerDiffusivity', 'getInterfacialComposition_multi',
+              'curvatureFactor', 'impingementFactor', 'getGrowthAndInterfacialComposition', 'computeMobility', 'computeHomogenizationFunction',
+              'HashTable.add_retrieve']
+    else:
+        qs = ['getInterdiffusivity', 'getTracerDiffusivity', 'computeMobility', 'computeHomogenizationFunction']
+    if real:
+        qs = [q for q in qs if not q.startswith(('_process', 'HashTable'))]
+    query = str(rng.choice(qs))
+    single = query in ('curvatureFactor', 'impingementFactor', 'getGrowthAndInterfacialComposition', 'getInterfacialComposition_multi', '_process_x', 'HashTable.add_retrieve')
+    N = 1 if single else int(rng.choice([1, 2, 3, 4]))
+    e = 1 if binary else 2
+    def comp():
+        row = [float(rng.uniform(lo, hi)) for lo, hi in S['x']]
+        k = rng.random()
+        if k < 0.55:
+            j = int(rng.integers(e))
+            row[j] = float(rng.choice(X_EXTREMES if not real else [0.0, -0.0, 1e-12, 5e-324]))
+        elif k < 0.65:
+            row = [0.0] * e
+        return row
+    rows = [comp() for _ in range(N)]
+    if N > 1 and rng.random() < 0.3:
+        rows[-1] = list(rows[0])                  # repeated values
+    specs = {}
+    names = MUT_QUERIES[query]
+    if 'x' in names:
+        if binary:
+            shape = str(rng.choice(['vec', 'col', 'row', '0d'])) if not single else str(rng.choice(['vec', '0d']))
+            flat = [r[0] for r in rows]
+            if shape == '0d' or (single and shape == 'vec' and rng.random() < 0.5):
+                specs['x'] = {'values': flat[0], 'layout': '0d'}
+                rows = rows[:1]
+            elif shape == 'vec':
+                specs['x'] = {'values': flat, 'layout': str(rng.choice([l for l in LAYOUTS_1D if l not in ('0d', 'i64')]))}
+            elif shape == 'col':
+                specs['x'] = {'values': [[v] for v in flat], 'layout': str(rng.choice(LAYOUTS_2D))}
+            else:
+                specs['x'] = {'values': [flat], 'layout': str(rng.choice(LAYOUTS_2D))}
+        else:
+            if len(rows) == 1 and rng.random() < 0.6:
+                specs['x'] = {'values': rows[0], 'layout': str(rng.choice([l for l in LAYOUTS_1D if l not in ('0d', 'i64')]))}
+            else:
+                specs['x'] = {'values': rows, 'layout': str(rng.choice(LAYOUTS_2D))}
+    n = len(rows)
+    T0 = float(rng.uniform(*S['T']))
+    def vec(vals, allow0d=True):
+        vals = list(vals)
+        if len(vals) == 1 and allow0d and rng.random() < 0.5:
+            return {'values': vals[0], 'layout': '0d'}
+        return {'values': vals, 'layout': str(rng.choice([l for l in LAYOUTS_1D if l != '0d']))}
+    if 'T' in names:
+        if query in ('getInterfacialComposition', 'getInterfacialComposition_multi', '_process_TG_arrays'):
+            m = int(rng.choice([1, 2, 3]))
+            Ts = [T0] * m if rng.random() < 0.6 else [float(int(T0)) + 10.0 * i for i in range(m)]
+            specs['T'] = vec(Ts)
+            gs = [float(rng.choice([0.0, -0.0, 100.0, 100.0, 2500.0, 1e-12])) for _ in range(m)]
+            specs['g'] = vec(gs)
+        else:
+            Ts = [float(int(T0))] * n if rng.random() < 0.5 else [float(int(T0)) + 10.0 * (i % 2) for i in range(n)]
+            specs['T'] = vec(Ts if rng.random() < 0.7 else Ts[:1])
+    if 'R' in names:
+        m = int(rng.choice([1, 3]))
+        specs['R'] = vec([float(rng.choice([1e-9, 1e-9, 3e-9, 5e-10])) for _ in range(m)])
+        specs['g'] = vec([float(rng.choice([0.0, -0.0, 500.0, 500.0, 1500.0])) for _ in range(m)])
+    for sp in specs.values():         # integer / float32 layouts need representable values
+        if sp['layout'] == 'i64':
+            sp['values'] = [int(v) for v in sp['values']] if isinstance(sp['values'], list) else int(sp['values'])
+    return {'part': 'mutation', 'system': system, 'query': query, 'args': specs, 'real': bool(real)}
+
+
+def part_nonmutation(ctx):
+    quick = ctx.quick
+    cases = corpus_cases('mutation')
+    cases += [gen_mut_case(ctx.rng, False) for _ in range(500 if quick else 5000)]
+    cases += [gen_mut_case(ctx.rng, True) for _ in range(50 if quick else 500)]
+    seen = set()
+    nerr = 0
+    t_real = 0.0
+    for c in cases:
+        t0 = time.time()
+        changed, err = mut_call(c['system'], c['query'], c['args'], recorders=not c.get('real'))
+        if c.get('real'):
+            t_real += time.time() - t0
+        nerr += 1 if err else 0
+        ctx.count({'mut': c}, any(isinstance(sp['values'], list) for sp in c['args'].values()))
+        ctx.hist('nonmutation_query', c['query'] + (' (pycalphad)' if c.get('real') else ''))
+        for n, sp in c['args'].items():
+            ctx.hist('nonmutation_layout', '%s %s' % (n, sp['layout']))
+        for name, what in changed:
+            cls = '%s %s' % (c['query'], name)
+            if cls in seen:
+                continue
+            seen.add(cls)
+            small = shrink_mut(c, name)
+            ctx.violation('arguments_unchanged', {'site': SITE_TH, 'cls': cls},
+                          {'kind': 'input', 'part': 'mutation', 'input': small,
+                           'call': render_call(small), 'observed': what,
+                           'oracle': 'bitwise comparison (dtype, shape, bytes; for views also the memory they share) of every array argument before and after the call'},
+                          '%s modified its argument %s (%s): %s' % (c['query'], name, what, render_call(small)))
+    ctx.notes['nonmutation_calls'] = len(cases)
+    ctx.notes['nonmutation_calls_that_raised'] = nerr
+    ctx.notes['nonmutation_time_pycalphad_s'] = round(t_real, 1)
+    ctx.sample({'nonmutation_call': render_call(cases[-1])})
+
+
+def render_call(c):
+    def r(sp):
+        return 'np.array(%r)%s' % (sp['values'], '' if sp['layout'] == 'plain' else ' as %s' % sp['layout'])
+    return '%s[%s%s](%s)' % (c['query'], c['system'], '' if c.get('real') else ', recording back ends', ', '.join('%s=%s' % (n, r(sp)) for n, sp in c['args'].items()))
+
+
+def shrink_mut(c, name):
+    """simplify: plain layouts for the other arguments, then fewer rows, while the same argument is still modified"""
+    def fails(d):
+        ch, _ = mut_call(d['system'], d['query'], d['args'], recorders=not d.get('real'))
+        return any(n == name for n, _ in ch)
+    cur = c
+    for n in c['args']:
+        if n != name and cur['args'][n]['layout'] not in ('plain', '0d'):
+            d = copy.deepcopy(cur); d['args'][n]['layout'] = 'plain'
+            try:
+                if fails(d):
+                    cur = d
+            except Exception:
+                pass
+    d = copy.deepcopy(cur)
+    if d['args'][name]['layout'] not in ('plain', '0d'):
+        d['args'][name]['layout'] = 'plain'
+        try:
+            if fails(d):
+                cur = d
+        except Exception:
+            pass
+    return cur
+
+
 def coqchk(ctx):
     """thorough tier: independent re-check of the compiled property file and its whole closure"""
     import subprocess, re
@@ -1567,6 +1875,9 @@ def run(ctx):
     part_singlephase(ctx)
     ctx.notes['time_singlephase_s'] = round(time.time() - t0, 1)
     t0 = time.time()
+    part_nonmutation(ctx)
+    ctx.notes['time_nonmutation_s'] = round(time.time() - t0, 1)
+    t0 = time.time()
     part_scripted(ctx)
     ctx.notes['time_scripted_s'] = round(time.time() - t0, 1)
     t0 = time.time()
@@ -1616,6 +1927,13 @@ def replay(ctx, obj):
             print('replay:', h[:3])
         print('replay: %d oracle violations on this history (%d queries)' % (len(hits), st['queries']))
         return 1 if hits else 0
+    if part == 'mutation':
+        c = obj['input']
+        changed, err = mut_call(c['system'], c['query'], c['args'], recorders=not c.get('real'))
+        for n, what in changed:
+            print('replay: %s modified its argument %s' % (render_call(c), what))
+        print('replay: %d modified arguments%s' % (len(changed), ' (the call raised %s)' % err if err else ''))
+        return 1 if changed else 0
     if part == 'scripted':
         c = obj['input']
         out, judge, calls = run_scripted_impl(c)
